@@ -13,6 +13,7 @@ import Driver.Pool
 import Driver.C25
 import Driver.C31
 import Driver.C37
+import Driver.C10
 import Driver.C11
 import Driver.C12
 import Driver.C13
@@ -39,6 +40,7 @@ def step (line : String) : String :=
   | "C06" :: ts => stepC06 ts
   | "C07" :: ts => stepC07 ts
   | "C09" :: ts => stepC09 ts
+  | "C10" :: ts => stepC10 ts
   | "C11" :: ts => stepC11 ts
   | "C12" :: ts => stepC12 ts
   | "C13" :: ts => stepC13 ts
